@@ -1,4 +1,5 @@
 """Property table: which verification units carry the obligations of each property."""
+import re
 
 TRUSTED_BASE = [
     'Verus 0.2026.09.13 + Z3 (verifier and solver themselves)',
@@ -7,32 +8,43 @@ TRUSTED_BASE = [
     'A-derive: derived PartialEq/Eq/Copy/Clone of generated enums and structs are structural',
 ]
 
+TYPES_Q = ['types_q_f64_ref', 'types_q_f64_noref', 'types_q_dec_ref', 'types_q_dec_noref']
+TYPES_REF = ['types_q_f64_ref', 'types_q_dec_ref']
+TYPES_NOREF = ['types_q_f64_noref', 'types_q_dec_noref']
+TYPES_THOROUGH = ['types_astro_f64_ref', 'types_fix_f64_ref', 'types_fix_f64_noref', 'types_fix_dec_ref', 'types_fix_dec_noref']
+
 PROPS = {
-    'C01': {
-        'level': 'proof',
-        'quick': ['gen_hasref'],
-        'thorough': [],
-        'expect': ['gen_hasref:trait LinearScaledUnit::ratio', 'gen_hasref:trait HasRefUnit::equiv_amount',
-                   'gen_hasref:trait HasRefUnit::convert'],
-    },
-    'C02': {
-        'level': 'proof',
-        'quick': ['gen_hasref'],
-        'expect': ['gen_hasref:trait HasRefUnit::eq', 'gen_hasref:trait HasRefUnit::partial_cmp',
-                   'gen_hasref:lemma_C02_L3_eq_symmetric', 'gen_hasref:lemma_C02_L3_cmp_antisymmetric',
-                   'gen_hasref:lemma_C02_L3_cmp_equal_iff_eq'],
-    },
-    'C03': {
-        'level': 'proof',
-        'quick': ['gen_hasref'],
-        'expect': ['gen_hasref:trait HasRefUnit::add', 'gen_hasref:trait HasRefUnit::sub', 'gen_hasref:trait HasRefUnit::div'],
-    },
-    'C10': {
-        'level': 'proof',
-        'quick': ['gen_quantity'],
-        'expect': ['gen_quantity:trait Quantity::eq', 'gen_quantity:trait Quantity::partial_cmp', 'gen_quantity:trait Quantity::add',
-                   'gen_quantity:trait Quantity::sub', 'gen_quantity:trait Quantity::div'],
-    },
+    'C01': {'level': 'proof', 'quick': ['gen_hasref'] + TYPES_REF, 'thorough': ['types_astro_f64_ref'],
+            'expect': ['gen_hasref:trait LinearScaledUnit::ratio', 'gen_hasref:trait HasRefUnit::equiv_amount',
+                       'gen_hasref:trait HasRefUnit::convert', 'gen_hasref:lemma_C01_L1_requested_unit',
+                       'gen_hasref:lemma_C01_L2_same_unit_identity', 'gen_hasref:lemma_C01_L3_equiv_amount_is_converted_amount']},
+    'C02': {'level': 'proof', 'quick': ['gen_hasref'] + TYPES_REF, 'thorough': ['types_astro_f64_ref'],
+            'expect': ['gen_hasref:trait HasRefUnit::eq', 'gen_hasref:trait HasRefUnit::partial_cmp',
+                       'gen_hasref:lemma_C02_L3_eq_symmetric', 'gen_hasref:lemma_C02_L3_cmp_antisymmetric',
+                       'gen_hasref:lemma_C02_L3_cmp_equal_iff_eq', 'gen_hasref:lemma_C02_L1_same_unit_is_amount_comparison']},
+    'C03': {'level': 'proof', 'quick': ['gen_hasref'] + TYPES_REF, 'thorough': ['types_astro_f64_ref'],
+            'expect': ['gen_hasref:trait HasRefUnit::add', 'gen_hasref:trait HasRefUnit::sub', 'gen_hasref:trait HasRefUnit::div',
+                       'gen_hasref:lemma_C03_same_unit_is_amount_arithmetic', 'gen_hasref:lemma_C03_result_in_left_unit']},
+    'C04': {'level': 'proof', 'quick': ['gen_hasref'] + TYPES_REF, 'thorough': ['types_astro_f64_ref'],
+            'expect': ['gen_hasref:trait HasRefUnit::_fit']},
+    'C05': {'level': 'proof', 'quick': ['gen_hasref'] + TYPES_REF, 'thorough': ['types_astro_f64_ref'],
+            'expect': ['gen_hasref:trait HasRefUnit::_fit', 'gen_hasref:lemma_C05_natural_unit_product', 'gen_hasref:lemma_C05_natural_unit_quotient',
+                       'gen_hasref:lemma_C05_fitted_unit_product', 'gen_hasref:lemma_C05_fitted_unit_quotient',
+                       'gen_hasref:lemma_C05_reference_units_product', 'gen_hasref:lemma_C05_reference_units_quotient']},
+    'C08': {'level': 'proof', 'quick': ['gen_hasref'] + TYPES_Q, 'thorough': ['types_astro_f64_ref'],
+            'expect': ['gen_hasref:impl Quantity for AmountT::new', 'gen_hasref:impl Quantity for AmountT::amount',
+                       'gen_hasref:impl Quantity for AmountT::unit', 'gen_hasref:impl LinearScaledUnit for One::scale',
+                       'gen_hasref:impl Mul < One > for AmountT::mul', 'gen_hasref:impl Mul < AmountT > for One::mul']},
+    'C10': {'level': 'proof', 'quick': ['gen_quantity'] + TYPES_NOREF,
+            'expect': ['gen_quantity:trait Quantity::eq', 'gen_quantity:trait Quantity::partial_cmp', 'gen_quantity:trait Quantity::add',
+                       'gen_quantity:trait Quantity::sub', 'gen_quantity:trait Quantity::div',
+                       'gen_quantity:lemma_C10_equal_only_if_same_unit_and_amount', 'gen_quantity:lemma_C10_different_units_unordered']},
+    'C13': {'level': 'proof', 'quick': ['gen_quantity'] + TYPES_Q, 'thorough': ['types_astro_f64_ref'],
+            'expect': ['gen_quantity:impl Rate::new', 'gen_quantity:impl Rate::from_qty_vals', 'gen_quantity:impl Rate::term_amount',
+                       'gen_quantity:impl Rate::term_unit', 'gen_quantity:impl Rate::per_unit_multiple', 'gen_quantity:impl Rate::per_unit',
+                       'gen_quantity:impl Rate::reciprocal', 'gen_quantity:impl Mul<PQ> for Rate::mul', 'gen_quantity:trait Unit::unit_as_qty',
+                       'gen_quantity:lemma_C13_reciprocal_involution', 'gen_quantity:lemma_C13_reciprocal_swaps',
+                       'gen_quantity:lemma_C13_div_is_mul_by_reciprocal']},
 }
 
 
